@@ -1593,11 +1593,16 @@ def _mark(run, name):
 def check(run):
     rng = random.Random(run.seed * 7919 + 16)
     thorough = run.tier == 'thorough'
-    common.prove(run, 'C16', ['model/C16Stream.vo', 'model/C16Res.vo', 'model/C16Closure.vo'])
+    common.prove(run, 'C16', ['model/C16Stream.vo', 'model/C16Res.vo', 'model/C16Closure.vo', 'model/C16Py.vo',
+                              'proofs/C16_gen_stream.vo'])
     run.trusted += ['Coq 8.16.1 kernel (coqc); vm_compute for the cases.v evaluation',
                     'harness/pdfread.py (independent PDF reader, ISO 32000-1 Annex A operator table) and the judges of harness/p_c16.py (Python)',
                     'harness/impl_c16.py: decoding of Stream.stream items into model tokens; the call recorder (wraps the methods of weasyprint.pdf.stream.Stream in the worker process)',
                     'pydyf (not in the repository): its one-item-per-call emitters are exercised as `Tok k`; file syntax (header, xref, trailer) is monitored, not modelled']
+    run.trusted += ['tools/py2coq.py (printer of the Stream methods into gen/GenStream.v; option obj_methods: super().m() as the oracle "super.m", '
+                    'x.a.append / x.a.pop() on list attributes as rebinding of the attribute, bytes literals as the text of their repr) and base/Py.v',
+                    'model/C16Py.v pydyf_call: what pydyf.Stream.push_state / pop_state / begin_text / end_text / set_font_size / end_marked_content '
+                    'append to self.stream (pydyf is not in the repository); methods are resolved by name']
     run.assumptions += ['an exception swallowed around drawing calls is either rolled back (SVGImage.draw: checkpoint/rollback, theorems C16_*_with_failed_drawings, exercised by the monitor) or raised by a call that opens no bracket (suppress(PointError) around one shape in svg draw_node); the AST pass lists these two places',
                         'content of fonts, images and attachments is judged by decodability only (font tables: C16 partial)',
                         'reference interpreter: fill/stroke colour, alpha constants, font, CTM, text matrix, q/Q stack; dash, line width, clip, blend mode and soft mask are not cached by Stream and therefore not part of skip soundness']
